@@ -654,6 +654,55 @@ def run(chk):
                 if ax != ex:
                     chk.violation(r_axs, key, "%s: `%s` is used as the %s index (argument %d of an (i, j, k) interface) but is compared with the extent of the %s axis in `%s`: on a grid with different extents cells inside the grid are rejected (or cells outside it accepted)" % (f["q"], a_["n"], "IJK"[ax], ax + 1, "IJK"[ex], show(n)), f["file"], n["l"])
 
+    # ---- C13.extend: layers that the deck gave are kept when a short DX/DY/DZ/TOPS array is extended downwards
+    r_ex = chk.rule("C13.extend", "EclipseGrid::createDVector / createTOPSVector extend an array given for the top layers only: after resize(volume) an element is assigned only if its index is at least the size the deck gave (the loop starts there, or the assignment sits under `index >= given size`), or - TOPS - under a test that the computed value agrees with the given one within a tolerance; the copied value comes from the cell one layer (nx*ny) above", floor=3)
+    for nm in ("createDVector", "createTOPSVector"):
+        cf = [f for f in fx.fns if f["n"] == nm and f.get("body") and f["file"].endswith("EclipseGrid.cpp")]
+        if len(cf) != 1:
+            raise core.AnalysisBroken("EclipseGrid::%s not found" % nm)
+        cf = cf[0]
+        rz = [n for n in walk(cf["body"]) if n["k"] == "MCall" and n.get("m") == "resize" and strip(n.get("obj") or {}).get("k") == "Ref"]
+        arrs = {strip(n["obj"])["n"] for n in rz}
+        for arr in sorted(arrs):
+            saved = [v["n"] for n in walk(cf["body"]) if n["k"] == "Decl" for v in n["vars"] if show(v.get("init")) == "%s.size()" % arr]
+            loops_e = [n for n in walk(cf["body"]) if n["k"] == "For" and any(x["k"] == "Bin" and x.get("asg") and show(strip(x["c"][0])).startswith("%s[" % arr) for x in walk(n["body"]))]
+            for lp in loops_e:
+                iv = lp["init"]["vars"][0]["n"] if lp.get("init") and lp["init"].get("k") == "Decl" else None
+                start = show(lp["init"]["vars"][0].get("init")) if iv else None
+
+                def rec(n, guards):
+                    if n.get("k") == "Bin" and n.get("asg") and n.get("op") == "=" and show(strip(n["c"][0])) == "%s[%s]" % (arr, iv):
+                        yield n, list(guards)
+                    if n.get("k") == "If" and isinstance(n.get("cond"), dict):
+                        c = show(strip(n["cond"]))
+                        if isinstance(n.get("then"), dict):
+                            yield from rec(n["then"], guards + [("then", c)])
+                        if isinstance(n.get("else"), dict):
+                            yield from rec(n["else"], guards + [("else", c)])
+                        return
+                    for ch in children(n):
+                        yield from rec(ch, guards)
+                for asg, guards in rec(lp["body"], []):
+                    key = "%s:%s@%d" % (nm, arr, asg["l"])
+                    ok = bool(saved) and start in saved
+                    if not ok and saved:
+                        for side, c in guards:
+                            if side == "then" and any(c == "(%s >= %s)" % (iv, sv) for sv in saved):
+                                ok = True
+                            if side == "else" and any(c == "(%s < %s)" % (iv, sv) for sv in saved):
+                                ok = True
+                            if side == "then" and re.search(r"std::abs\(.*%s\[%s\].*\) < " % (arr, iv), c):
+                                ok = True
+                    src_ok = True
+                    if nm == "createDVector":
+                        srcv = [v for n in walk(lp["body"]) if n["k"] == "Decl" for v in n["vars"]]
+                        src_ok = any(re.fullmatch(r"\(%s - \w+\)" % iv, show(v.get("init"))) for v in srcv) and ("%s[" % arr) in show(asg["c"][1])
+                    chk.instance(r_ex, key, sample=dict(function=cf["q"], array=arr, loop_start=start, given_size_saved_as=saved, guards=guards, value=show(asg["c"][1])[:60]))
+                    if not ok:
+                        chk.violation(r_ex, key, "EclipseGrid::%s assigns %s[%s] for every %s from %s on%s: indices below the size the deck gave (%s) are overwritten too, so layers the user specified are replaced by copies of the layer above" % (nm, arr, iv, iv, start, " under %s" % guards if guards else "", saved or "not saved before the resize"), cf["file"], asg["l"])
+                    elif not src_ok:
+                        chk.violation(r_ex, key + ":source", "EclipseGrid::%s fills %s[%s] with %s; the value of a missing layer is that of the cell one layer (nx*ny) above" % (nm, arr, iv, show(asg["c"][1])[:60]), cf["file"], asg["l"])
+
     # ---- C13.mapunits: the origin of the map axes is scaled with the factor of the MAPUNITS the object remembers
     r_mu = chk.rule("C13.mapunits", "every MapAxes constructor that records a MAPUNITS string (from the deck, from an EGRID file, from its argument) initialises the axes with length_factor(<that unit>): in the block that sets map_units the factor handed to init() is assigned from length_factor, or the constructor delegates with length_factor(mapunits); the deck path and the EGRID path therefore give the same transform", floor=3)
     mx = chk.facts(["opm/input/eclipse/EclipseState/Grid/MapAxes.cpp"])
